@@ -11,6 +11,7 @@ from . import world_client as W
 RESERVED = ('connect', 'connect_error', 'disconnect', '__disconnect_final')
 NS_POOL = ['/', '/a', '/b', '/c-1']
 EV_POOL = ['msg', 'my event', 'a', 'message', 'é', 'x']
+SRV_EV_POOL = EV_POOL + ['*']      # an event may literally be named like the catch-all key (/repo 6dcbd32)
 
 CONNECT, DISCONNECT, EVENT, ACK, CONNECT_ERROR, BINARY_EVENT, BINARY_ACK = range(7)
 
@@ -71,7 +72,7 @@ def gen_registry(rng, is_async, sparse_p=0.15):
     fns, classes = {}, {}
 
     def h(ev):
-        return dict(ev=ev, coro=bool(is_async and rng.random() < 0.5),
+        return dict(ev=ev, coro=bool(is_async and rng.random() < 0.5), susp=rng.random() < 0.6,
                     legacy=bool(ev == 'disconnect' and rng.random() < 0.2),
                     ret=('none',) if ev in RESERVED else gen_ret(rng))
 
@@ -118,10 +119,13 @@ def resolve(reg, ns, ev, args):
     fns = {(h['ns'], h['ev']): h for h in reg['fns']}
     classes = {c['ns']: {m['ev']: m for m in c['methods']} for c in reg['classes']}
     res = ev in RESERVED
-    cand = [((ns, ev), list(args))]
+    cand = []
+    if ev != '*':
+        cand.append(((ns, ev), list(args)))
     if not res:
         cand.append(((ns, '*'), [ev] + list(args)))
-    cand.append((('*', ev), [ns] + list(args)))
+    if ev != '*':
+        cand.append((('*', ev), [ns] + list(args)))
     if not res:
         cand.append((('*', '*'), [ev, ns] + list(args)))
     for key, a in cand:
@@ -258,12 +262,12 @@ def run_impl_op(w, op):
     elif k == 'emit':
         cb = op.get('cb')
         res = w.emit(op['ev'], op['data'], op['ns'],
-                     callback=None if cb is None else w.callback(cb['tok'], cb.get('coro', False)),
+                     callback=None if cb is None else w.callback(cb['tok'], cb.get('coro', False), cb.get('susp', False)),
                      reacts=op['reacts'])
     elif k == 'send':
         cb = op.get('cb')
         res = w.send(op['data'], op['ns'],
-                     callback=None if cb is None else w.callback(cb['tok'], cb.get('coro', False)),
+                     callback=None if cb is None else w.callback(cb['tok'], cb.get('coro', False), cb.get('susp', False)),
                      reacts=op['reacts'])
     elif k == 'call':
         res = w.call(op['ev'], op['data'], op['ns'], reacts=op['reacts'])
@@ -275,6 +279,29 @@ def run_impl_op(w, op):
     else:
         raise ValueError(op)
     return {'trace': w.take(), 'res': res, 'snap': w.snapshot()}
+
+
+def run_impl_burst(w, ops):
+    """consecutive `ev` operations of one burst: delivered concurrently (asyncio), -> one record each"""
+    res = w.burst([op['e'] for op in ops])
+    return [{'trace': t, 'res': None, 'snap': s} for t, s in res]
+
+
+def run_ops(w, ops, sink):
+    """execute a list of operations, bursts as a unit; `sink(op, rec)` per operation"""
+    i = 0
+    while i < len(ops):
+        b = ops[i].get('burst')
+        if b is None:
+            sink(ops[i], run_impl_op(w, ops[i]))
+            i += 1
+            continue
+        j = i
+        while j < len(ops) and ops[j].get('burst') == b:
+            j += 1
+        for op, rec in zip(ops[i:j], run_impl_burst(w, ops[i:j])):
+            sink(op, rec)
+        i = j
 
 
 def canon_impl(rec):
@@ -452,7 +479,7 @@ class HistoryGen:
         args = [self.value(0.5 if binary else 0.0) for _ in range(rng.randint(0, 3))]
         if binary and not G.has_bytes(args):
             args.append(G.gen_bytes(rng))
-        return srv_frames(EVENT, [self.evname()] + args, ns, pid)
+        return srv_frames(EVENT, [self.rng.choice(SRV_EV_POOL)] + args, ns, pid)
 
     def ack_frames(self, kind=None):
         """-> frames of an ACK: correct / duplicate / unknown / cross-namespace / no id"""
@@ -622,7 +649,8 @@ class HistoryGen:
                     + srv_frames(ACK, ['wrong id'], ns, nid + 1 + rng.randint(0, 3))
         else:
             if rng.random() < (0.7 if self.profile == 'c09' else 0.35):
-                op['cb'] = {'tok': self.new_tok(), 'coro': bool(self.is_async and rng.random() < 0.5)}
+                op['cb'] = {'tok': self.new_tok(), 'coro': bool(self.is_async and rng.random() < 0.5),
+                            'susp': rng.random() < 0.6}
             else:
                 op['cb'] = None
             if will_send:
@@ -679,6 +707,19 @@ class HistoryGen:
             return [self.op_emit(True)]
         if r < wts[1]:
             return [self.op_emit(False)]
+        if r < wts[2] and rng.random() < (0.3 if self.profile == 'c09' else 0.1):
+            # a burst: several packets arrive while the handlers of the earlier ones are still running
+            self.nburst = getattr(self, 'nburst', 0) + 1
+            evs = []
+            for k in range(rng.randint(2, 4)):
+                q = rng.random()
+                if k == 0 and q < 0.6:
+                    evs += self.event_frames(binary=True)
+                elif q < 0.65:
+                    evs += self.event_frames()
+                else:
+                    evs += self.ack_frames()[0]
+            return [{'op': 'ev', 'e': e, 'burst': self.nburst} for e in evs]
         if r < wts[2]:
             evs = self.op_srv()
             ops = [{'op': 'ev', 'e': e} for e in evs]
@@ -1017,6 +1058,8 @@ class Oracle:
             return bi
 
         if k == 'ev':
+            if op.get('burst'):
+                self.stat('op.ev.in_burst')
             play([op['e']], False)
             if top:
                 self.bad('C08.mirror', 'output outside the event: %r' % (top,))
@@ -1246,13 +1289,16 @@ def gen_case(rng, mode, profile, n_ops):
     gen = HistoryGen(rng, is_async, profile, reg, orc.v)
     w = W.ClientWorld(mode, reg)
     ops, recs = [], []
+    def sink(op, rec):
+        orc.step(op, rec)
+        ops.append(op)
+        recs.append(rec)
+
     try:
         while len(ops) < n_ops:
-            for op in gen.next_ops():
-                rec = run_impl_op(w, op)
-                orc.step(op, rec)
-                ops.append(op)
-                recs.append(rec)
+            run_ops(w, gen.next_ops(), sink)
+        if w.n_suspended:
+            orc.stats['burst.handlers_suspended_while_next_packet_arrived'] = w.n_suspended
     finally:
         w.close()
     return {'mode': mode, 'registry': reg, 'ops': ops}, recs, orc
@@ -1263,11 +1309,12 @@ def exec_case(case):
     orc = Oracle(case['registry'])
     w = W.ClientWorld(case['mode'], case['registry'])
     recs = []
+    def sink(op, rec):
+        orc.step(op, rec)
+        recs.append(rec)
+
     try:
-        for op in case['ops']:
-            rec = run_impl_op(w, op)
-            orc.step(op, rec)
-            recs.append(rec)
+        run_ops(w, case['ops'], sink)
     finally:
         w.close()
     return recs, orc
@@ -1321,7 +1368,8 @@ def skeleton(case):
             out.append('C%d%s%s' % (len(op['nss']), 'w' if op['wait'] else 'n', op.get('window', '?')[:2]))
         elif op['op'] == 'ev':
             e = op['e']
-            out.append(e[0][0] if e[0] != 'frame' else ('b' if isinstance(e[1], (bytes, bytearray)) else e[1][:1]))
+            out.append(('~' if op.get('burst') else '') +
+                       (e[0][0] if e[0] != 'frame' else ('b' if isinstance(e[1], (bytes, bytearray)) else e[1][:1])))
         else:
             out.append(op['op'][0] + ('r' if op.get('reacts') else ''))
     return ''.join(out)
@@ -1430,6 +1478,10 @@ def run_check(ctx, profile, props, nontrivial_rule, is_nontrivial):
         'wait_timeout / call timeout are not time: the reactions scripted inside the call are what arrives '
         'before the timeout (threading: timeout=0; asyncio: virtual clock)',
         'reconnection=False (reconnection policy is C10)',
+        'concurrent delivery (asyncio): bursts deliver the next packets while coroutine handlers/callbacks of the '
+        'earlier ones are suspended on harness-owned futures, released in order; compared with the sequential '
+        'model per message (handlers must start in delivery order). The threaded client is driven sequentially '
+        '(engine.io one-thread-per-message scheduling is outside these properties, DESIGN §4)',
         'server packets are well-formed (EVENT data is a list starting with a non-reserved str name, ACK data a '
         'list); hostile input is C12',
     ]
